@@ -297,6 +297,10 @@ KERNELS = [
     dict(name="SHADE_generate_F_CR", file="optimizers/_shade.py", cls="SHADE", func="_generate_F_CR", params=[], ret="Mat", streams=True,
          self_attrs={"_pop_size": ("pop_size", "Int"), "_H_size": ("H_size", "Int"), "_H_F": ("H_F", "Arr"), "_H_CR": ("H_CR", "Arr")},
          opaque_fn={"randc01": ("randcFn", ["Int"]), "randn01": ("randnFn", ["Int"])}),
+    dict(name="SHAGA_generate_MR_CR", file="optimizers/_shaga.py", cls="SHAGA", func="_generate_MR_CR", params=[], ret="Mat", streams=True,
+         self_attrs={"_pop_size": ("pop_size", "Int"), "_H_size": ("H_size", "Int"), "_H_MR": ("H_MR", "Arr"), "_H_CR": ("H_CR", "Arr")},
+         opaque_exprs={"0.1 / self._str_len": "scale_MR"},
+         opaque_fn={"self._randc": ("randcFn", ["Int", "Int"]), "self._randn": ("randnFn", ["Int", "Int"])}),
     dict(name="SHADE_update_u_F", file="optimizers/_shade.py", cls="SHADE", func="_update_u_F", params=[("u_F", "Int"), ("S_F", "Arr")], ret="Int", normalise_returns=True,
          opaque_fn={"lehmer_mean": ("lehmerFn", ["Arr"])}),
     # ---- the greedy replacement block at the end of DifferentialEvolution._get_new_population (suffix translation: the statements from
